@@ -375,6 +375,10 @@ pub struct TypedFooterCase {
     pub variant: u8,
 }
 
+pub fn typed_variants_pub(c: &TypedFooterCase) -> (Vec<u8>, Vec<(String, Vec<u8>)>) {
+    typed_variants(c)
+}
+
 fn typed_variants(c: &TypedFooterCase) -> (Vec<u8>, Vec<(String, Vec<u8>)>) {
     if c.footer_ty == 0 {
         let canon = format!("kid={}", c.kid.to_ascii_lowercase()).into_bytes();
